@@ -432,3 +432,56 @@ PROPS['C01'] = dict(
              require=['c01.accounted_cases']),
     ],
 )
+
+PROPS['C20'] = dict(
+    engine='pipelab',
+    key_prefixes=['c20:', 'abort:', 'crash:', 'timeout'],
+    technique='runtime monitoring: per-option shadow value maintained from '
+              'setter return codes, getters called with sentinel-preloaded '
+              'variables, and a differential twin run (same seeded history '
+              'with and without interleaved getters, sink logs compared)',
+    level_text='For every option with a getter and a setter of the catalogue '
+               'pipes (offsets, delays, RAP, output size, MTU/alignment, time '
+               'and rate limits, buffer sizes, attribute dictionaries, '
+               'getattr function, output, flow definition): value read back '
+               'after accepted setters, unchanged after rejected ones, and '
+               'identical sink logs whether or not getters are interleaved.',
+    level_note=PIPELAB_NOTE + ' Defaults are taken from the first getter call '
+               'after allocation.',
+    rule='case = twin execution of one 10-40 operation history; non-trivial = '
+         'history with >= 3 inputs; distinct = hash of the operation sequence',
+    assumptions=['the value reported by the getter right after allocation is '
+                 'the documented default'],
+    jobs=[
+        dict(name='pipelab', bin='pipelab', variant='asan', mode='c20',
+             quick=40000, thorough=2000000,
+             require=['c20.twin_runs_compared', 'c20.getter_checked',
+                      'c20.setter_rejected', 'c20.setter_accepted']),
+    ],
+)
+
+PROPS['C14'] = dict(
+    engine='pipelab',
+    key_prefixes=['c14:', 'nonterm:', 'abort:', 'crash:', 'timeout'],
+    technique='runtime monitoring: per-pipe reference regrouping model over '
+              'the accepted byte stream, metamorphic cutting-independence '
+              'check, non-termination decided in logical steps',
+    level_text='Aggregation and fixed-size chunking are compared unit by unit '
+               'with a reference model (greedy packing with the documented '
+               'anticipate-next-unit rule; size = mtu/align*align with the '
+               'unaligned tail dropped at release) incl. option changes '
+               'mid-stream; the same stream is replayed under 2-4 cuttings '
+               '(0/1-octet and segmented buffers) and must give identical '
+               'units; release/flush are bounded by a step budget.',
+    level_note=PIPELAB_NOTE,
+    rule='case = one history of 10-40 operations on aggregate / chunk_stream '
+         'with a single accepting sink, or one stream under 2-4 cuttings; '
+         'distinct = hash of the operation sequence / (options, stream '
+         'length)',
+    assumptions=['upipe_flush is only modelled for pipes that handle it'],
+    jobs=[
+        dict(name='pipelab', bin='pipelab', variant='asan', mode='c14',
+             quick=40000, thorough=2000000,
+             require=['c14.units_checked', 'c14.cuttings_compared']),
+    ],
+)
